@@ -655,6 +655,9 @@ func (t *Teamserver) handleRequest(id string) {
 
 		pk := client.Packager.CreatePackage(string(EventPackage))
 		pk.Head.Time = time.Now().Format("02/01/2006 15:04:05")
+		// the sender is the operator this connection authenticated as, whatever the message
+		// claims: replies that are directed to "the sender" are resolved through this name
+		pk.Head.User = client.Username
 
 		t.EventAppend(pk)
 		t.DispatchEvent(pk)
